@@ -8,3 +8,5 @@ def build_all():
     lib.build_coro()
     lib.build_c09('quick')
     lib.build_conc()
+    import checks
+    checks.teardown_segments('quick', 1)     # TLC-generated tear-down orders (cached by spec hash)
